@@ -37,7 +37,14 @@ def violation_sig(info):
     return "timed:%s:%s" % (st, last.get("ev", "?"))
 
 
-def run_family(ctx, name, scs, sigf=violation_sig, chunk=400):
+def scen_sig(cfg):
+    st = "+".join(d["k"] for d in cfg["stack"])
+    src = "+".join(sorted({e["what"] + ("/gap" if e.get("gap") else "") for e in cfg["env"] if e["what"] != "Start"}))
+    asy = "async" if any(e.get("async") for e in cfg["env"]) else "sync"
+    return "%s:%s:%s" % (st, src or "-", asy)
+
+
+def run_family(ctx, name, scs, sigf=violation_sig, chunk=400, props=()):
     binary = vlib.build_harness(ctx)
     tscen.ASYNC_FIX = tscen.async_fix_in_code()
     for s in scs:
@@ -48,6 +55,12 @@ def run_family(ctx, name, scs, sigf=violation_sig, chunk=400):
         ok, info = tscen.run_and_validate(ctx, binary, "%s%d" % (name, i), part)
         for p in info["problems"]:
             vlib.add_violation(ctx, "timed:problem:" + p["what"][:60], p["what"], dict(scenario=p["raw"]))
+        for pv in info.get("propviol", []):
+            if pv["prop"] in props:
+                ret = [l for l in pv["trace"] if l["ev"] == "Return"]
+                vlib.add_violation(ctx, "prop:%s:%s" % (pv["prop"], scen_sig(pv["config"])),
+                                   "the real trace breaks the %s predicate of specs/FailsafeTTrace.tla (returned %s)" % (pv["prop"], json.dumps(ret)[:300]),
+                                   dict(config=pv["config"], trace=pv["trace"]))
         if not ok:
             vlib.add_violation(ctx, sigf(info), "no interleaving of specs/FailsafeT.tla explains line %d: %s" % (info["rejected_line"], json.dumps(info["trace"][-1])[:400]),
                                dict(config=info["config"], trace=info["trace"]))
